@@ -14,7 +14,7 @@ import (
 )
 
 // operand values that make groupings distinguishable
-var c10Vals = []string{`[[1],[2,3]]`, `[0]`, `[[]]`, `[{"a":1},{"a":0}]`, `{"a":[1,2],"b":[[3]]}`, `[null,1]`, "0", "1", "2", "3", "-1", "5", "7", "0.5", "10", "null", "true", "false", `""`, `"a"`, "[]", "[1]", `{"a":2,"b":3,"c":5}`, `{"a":{"a":1,"b":2,"c":3},"b":7,"c":0}`, `{"a":null,"b":true,"c":false}`, `[[1,2],[3]]`}
+var c10Vals = []string{`"cba"`, `"xabc"`, `"é日a"`, `[[1],[2,3]]`, `[0]`, `[[]]`, `[{"a":1},{"a":0}]`, `{"a":[1,2],"b":[[3]]}`, `[null,1]`, "0", "1", "2", "3", "-1", "5", "7", "0.5", "10", "null", "true", "false", `""`, `"a"`, "[]", "[1]", `{"a":2,"b":3,"c":5}`, `{"a":{"a":1,"b":2,"c":3},"b":7,"c":0}`, `{"a":null,"b":true,"c":false}`, `[[1,2],[3]]`}
 
 type spelledOp struct{ op, text string }
 
@@ -126,8 +126,18 @@ func TestC10_Precedence(t *testing.T) {
 					{{Kind: ast.SFlatten}}, {{Kind: ast.SListStar}}, {{Kind: ast.SIndex, Index: 0}}, {{Kind: ast.SIndex, Index: -1}}, {{Kind: ast.SField, Name: "a"}},
 					{{Kind: ast.SSlice, Start: ast.I64(0)}}, {{Kind: ast.SFilter, Cond: ast.Cur()}}, {{Kind: ast.SListStar}, {Kind: ast.SField, Name: "a"}}, {{Kind: ast.SFlatten}, {Kind: ast.SIndex, Index: 0}},
 					{{Kind: ast.SMultiList, Items: []ast.Expr{ast.Cur()}}}, {{Kind: ast.SField, Name: "b"}, {Kind: ast.SFlatten}},
+					{{Kind: ast.SSlice, Stride: ast.I64(-1)}}, {{Kind: ast.SSlice, Start: ast.I64(1)}}, {{Kind: ast.SCall, Name: "length", Args: []ast.Arg{ast.A(ast.Cur())}}}, {{Kind: ast.SCall, Name: "to_array", Args: []ast.Arg{ast.A(ast.Cur())}}},
+					{{Kind: ast.SMultiHash, Keys: []string{"a"}, Items: []ast.Expr{ast.Cur()}}},
 				})
-				atoms[i] = ast.F(name).With(st...)
+				// the selectors bind to whatever kind of primary they follow: a
+				// field, a literal, a raw string, a call, a parenthesised
+				// expression, a multi-select
+				heads := []*ast.Chain{ast.F(name), ast.F(name), ast.Lit(v), ast.Call("not_null", ast.A(ast.F(name))), ast.Paren(ast.F(name)),
+					{Head: ast.Head{Kind: ast.HMultiList, Items: []ast.Expr{ast.F(name)}}}, {Head: ast.Head{Kind: ast.HCurrent}, Steps: []ast.Step{{Kind: ast.SField, Name: name}}}}
+				if v.K == jv.Str {
+					heads = append(heads, ast.RawS(v.S), ast.RawS(v.S))
+				}
+				atoms[i] = gen.Pick(t, "head-"+name, heads).With(st...)
 			case 3:
 				ms = append(ms, jv.Member{K: name, V: v})
 				atoms[i] = gen.Pick(t, "wrap-"+name, []ast.Expr{ast.Call("not_null", ast.A(ast.F(name))), ast.Call("to_array", ast.A(ast.F(name))).With(ast.Step{Kind: ast.SFlatten}),
